@@ -303,6 +303,7 @@ func runC03(c *Ctx) {
 		}
 		c.Floor("C03.multi/paths", nM, 2)
 	}
+	multiComplete(c, a, "C03.multi-complete")
 	equalArms(c, "C03.equal-sound", false)
 	resetRemoveAnnounce(c, "C03.reset-announce")
 }
@@ -529,4 +530,186 @@ func resetRemoveAnnounce(c *Ctx, rule string) {
 		}
 		c.Floor(rule+"/remove-paths", n, 1)
 	}
+}
+
+// multiComplete: in the arm of Target.GnmiUpdate that splits a combined
+// notification, every update and every delete is applied whatever happened to
+// the others (shared by C02 and C03).  Control-flow rule:
+//   - the loop that calls gnmiUpdate and the loop that calls gnmiRemove are
+//     left only through their headers (no return/break out of a body);
+//   - every path from the update loop to a return passes the header of the
+//     delete loop (must-pass-through).
+func multiComplete(c *Ctx, a *cacheAnchors, rule string) {
+	P := c.P
+	c.Rule(rule, "combined notifications: the function that loops over gnmiUpdate and gnmiRemove leaves either loop only through its header, and every path from the update loop to a return passes the header of the delete loop (a rejected update neither stops the remaining updates nor skips the deletes)")
+	// the function holding both loops: GnmiUpdate or a same-package helper it delegates to
+	var cands []*ssa.Function
+	seen := map[*ssa.Function]bool{a.GnmiUpdate: true}
+	work := []*ssa.Function{a.GnmiUpdate}
+	for len(work) > 0 {
+		f := work[0]
+		work = work[1:]
+		cands = append(cands, f)
+		for _, g := range withAnon(f) {
+			for _, ci := range callsIn(g) {
+				cal := staticCallee(ci.Common())
+				if cal != nil && cal.Pkg == a.GnmiUpdate.Pkg && len(cal.Blocks) > 0 && !seen[cal] && cal != a.gnmiUpdate && cal != a.gnmiRemove {
+					seen[cal] = true
+					work = append(work, cal)
+				}
+			}
+		}
+	}
+	found := 0
+	for _, f := range cands {
+		var hu, hd *ssa.BasicBlock
+		for _, ci := range callsIn(f) {
+			switch staticCallee(ci.Common()) {
+			case a.gnmiUpdate:
+				if h := loopHeaderOf(ci.Block()); h != nil {
+					hu = h
+				}
+			case a.gnmiRemove:
+				if h := loopHeaderOf(ci.Block()); h != nil {
+					hd = h
+				}
+			}
+		}
+		if hu == nil && hd == nil {
+			continue
+		}
+		if hu == nil || hd == nil {
+			c.Unknown(rule, fnName(f), "update loop and delete loop of the combined arm", P.Pos(f.Pos()), "only one of the two loops is in this function")
+			continue
+		}
+		found++
+		c.Analysed(fnName(f))
+		for _, l := range []struct {
+			name string
+			h    *ssa.BasicBlock
+		}{{"update loop", hu}, {"delete loop", hd}} {
+			body := loopBlocks(l.h)
+			bad := ""
+			for b := range body {
+				if b == l.h {
+					continue
+				}
+				for _, s := range b.Succs {
+					if !body[s] && !panicOnly(s) {
+						bad = fmt.Sprintf("block %d (%s) leaves the loop to block %d (%s)", b.Index, b.Comment, s.Index, s.Comment)
+					}
+				}
+			}
+			c.Check(bad == "", rule, fnName(f), l.name+" is left only through its header", P.Pos(firstPos(l.h)), bad)
+		}
+		// must-pass-through: from the update loop header, with the delete loop header removed, no return is reachable
+		reach := map[*ssa.BasicBlock]bool{}
+		var dfs func(b *ssa.BasicBlock)
+		dfs = func(b *ssa.BasicBlock) {
+			if reach[b] || b == hd {
+				return
+			}
+			reach[b] = true
+			for _, s := range b.Succs {
+				dfs(s)
+			}
+		}
+		dfs(hu)
+		bad := ""
+		for b := range reach {
+			if len(b.Instrs) == 0 {
+				continue
+			}
+			if _, ok := b.Instrs[len(b.Instrs)-1].(*ssa.Return); ok {
+				bad = fmt.Sprintf("the return at %s is reachable from the update loop without entering the delete loop", P.Pos(b.Instrs[len(b.Instrs)-1].Pos()))
+			}
+		}
+		c.Check(bad == "", rule, fnName(f), "every path from the update loop to a return passes the delete loop", P.Pos(firstPos(hu)), bad)
+	}
+	c.Floor(rule+"/functions-with-both-loops", found, 1)
+}
+
+// loopHeaderOf returns the header of the innermost loop containing b (the
+// closest dominator of b that b can reach again), or nil.
+func loopHeaderOf(b *ssa.BasicBlock) *ssa.BasicBlock {
+	r := reachableFrom(b)
+	for h := b; h != nil; h = h.Idom() {
+		if h == b {
+			// b is its own header only if it reaches itself
+			self := false
+			for _, s := range b.Succs {
+				if s == b || reachableFrom(s)[b] {
+					self = true
+				}
+			}
+			if self && len(b.Preds) > 1 {
+				// a loop header has an entry edge and a back edge; b could also be a body block: prefer a real header below
+				if _, isIf := b.Instrs[len(b.Instrs)-1].(*ssa.If); isIf && b.Dominates(b.Succs[0]) {
+					back := false
+					for _, p := range b.Preds {
+						if b.Dominates(p) {
+							back = true
+						}
+					}
+					if back {
+						return b
+					}
+				}
+			}
+			continue
+		}
+		if !r[h] {
+			continue
+		}
+		back := false
+		for _, p := range h.Preds {
+			if h.Dominates(p) && (p == b || reachableFrom(b)[p]) {
+				back = true
+			}
+		}
+		if back {
+			return h
+		}
+	}
+	return nil
+}
+
+// loopBlocks: the natural loop of header h (blocks dominated by h that reach a back edge of h).
+func loopBlocks(h *ssa.BasicBlock) map[*ssa.BasicBlock]bool {
+	body := map[*ssa.BasicBlock]bool{h: true}
+	var work []*ssa.BasicBlock
+	for _, p := range h.Preds {
+		if h.Dominates(p) && !body[p] {
+			body[p] = true
+			work = append(work, p)
+		}
+	}
+	for len(work) > 0 {
+		b := work[0]
+		work = work[1:]
+		for _, p := range b.Preds {
+			if !body[p] && h.Dominates(p) {
+				body[p] = true
+				work = append(work, p)
+			}
+		}
+	}
+	return body
+}
+
+func panicOnly(b *ssa.BasicBlock) bool {
+	if len(b.Instrs) == 0 {
+		return false
+	}
+	_, ok := b.Instrs[len(b.Instrs)-1].(*ssa.Panic)
+	return ok
+}
+
+func firstPos(b *ssa.BasicBlock) token.Pos {
+	for _, in := range b.Instrs {
+		if in.Pos().IsValid() {
+			return in.Pos()
+		}
+	}
+	return b.Parent().Pos()
 }
